@@ -1,6 +1,8 @@
 // tworun runs every toy-capable protocol several times from seeded per-party random streams (C07):
-//   A and C with identical streams (determinism: any hidden source of randomness shows up as a difference),
-//   B_p with only party p's protocol stream replaced.
+//
+//	A and C with identical streams (determinism: any hidden source of randomness shows up as a difference),
+//	B_p with only party p's protocol stream replaced.
+//
 // It logs every leaf of every message as a token (equal bytes <=> equal token), the outputs, the bytes each party
 // consumed per round and the group elements g^s for every scalar-sized chunk s each party's reader handed out.
 // The toy group runs in Big mode (61-bit q) so that accidental equality of independent values is negligible.
